@@ -280,7 +280,7 @@ pub fn format_blame_metadata(
                 }))
             }
             Some(Placeholder::Str("author")) => Some(Cow::from(blame.author)),
-            Some(Placeholder::Str("commit")) => Some(delta::format_raw_line(blame.commit, config)),
+            Some(Placeholder::Str("commit")) => Some(Cow::from(blame.commit)),
             None => None,
             _ => unreachable!("Unexpected `git blame` input"),
         };
@@ -291,12 +291,19 @@ pub fn format_blame_metadata(
                 .chars()
                 .count()
                 .saturating_sub(UnicodeWidthStr::width(field.as_ref()));
-            s.push_str(&format::pad(
+            let padded = format::pad(
                 &field,
                 width + unicode_modifier_width,
                 alignment_spec,
                 placeholder.precision,
-            ))
+            );
+            if placeholder.placeholder == Some(Placeholder::Str("commit")) {
+                // The hyperlink is added last: padding and precision apply to the hash, not to
+                // the escape sequences of the link.
+                s.push_str(&delta::format_raw_line(&padded, config))
+            } else {
+                s.push_str(&padded)
+            }
         }
         suffix = placeholder.suffix.as_str();
     }
